@@ -955,7 +955,11 @@ impl Xot {
     /// If that id does not exist, returns [`None`].
     pub fn xml_id_node(&self, document_node: Node, value: &str) -> Option<Node> {
         let value_nodes = self.id_nodes_map.get(&document_node.get())?;
-        value_nodes.get(value).map(|node_id| Node::new(*node_id))
+        value_nodes
+            .get(value)
+            .map(|node_id| Node::new(*node_id))
+            // the element may have been removed since the document was parsed
+            .filter(|node| !self.is_removed(*node))
     }
 }
 
